@@ -13,7 +13,15 @@ INT_RANGE = {1: (0, 255), 2: (-128, 127), 3: (0, 65535), 4: (-32768, 32767), 5: 
 TAGS = ["A", "Bb", "Ccc"]
 GATES = ["Option", "Box", "Cell", "RefCell", "Cow", "Rc", "Arc", "Mutex", "RwLock"]
 GATE_COQ = {"Option": "GOption", "Box": "GBox", "Cell": "GCell", "RefCell": "GRefCell", "Cow": "GCow", "Rc": "GRc",
-            "Arc": "GArc", "Mutex": "GMutex", "RwLock": "GRwLock"}
+            "Arc": "GArc", "Mutex": "GMutex", "RwLock": "GRwLock", "RcWeak": "GRcWeak", "ArcWeak": "GArcWeak"}
+# rc::Weak / sync::Weak implement TreeKey + TreeSerialize + TreeDeserialize but not TreeAny: curated programs only
+# (corpus.py), run through the runner without ref_any / mut_any
+WEAK = {"RcWeak": ("std::rc::Weak", "Rc"), "ArcWeak": ("std::sync::Weak", "Arc")}
+# reference wrappers (leaked boxes): &mut T has all four traits (blanket impls); &RefCell / &Mutex / &RwLock have TreeKey +
+# TreeSerialize (through &T) + TreeDeserialize (interior mutability), no TreeAny; plain &T only TreeKey + TreeSerialize
+GATE_COQ.update({"RefMut": "GRefMut", "RefRefCell": "GRefRefCell", "RefMutex": "GMutex", "RefRwLock": "GRwLock", "Ref": "GBox"})
+REF_NOANY = ("RefRefCell", "RefMutex", "RefRwLock")
+REF_RO = ("Ref",)
 OPS = ["OSer", "ODe", "ORef", "OMut"]
 DENY_KEYS = {"OSer": "serialize", "ODe": "deserialize", "ORef": "ref_any", "OMut": "mut_any"}
 
@@ -239,6 +247,17 @@ def has_kind(t, kinds):
     return any(has_kind(c, kinds) for _, c in ch[1])
 
 
+def has_gate(t, gates):
+    if t["k"] == "gate" and t["g"] in gates:
+        return True
+    ch = children(t)
+    if ch is None:
+        return False
+    if ch[0] == "pass":
+        return has_gate(ch[1], gates)
+    return any(has_gate(c, gates) for _, c in ch[1])
+
+
 # ---------------------------------------------------------------------- Rust emission
 def rust_type(t):
     k = t["k"]
@@ -251,7 +270,9 @@ def rust_type(t):
     if k == "gate":
         inner = rust_type(t["t"])
         return {"Option": "Option<%s>", "Box": "Box<%s>", "Cell": "Cell<%s>", "RefCell": "RefCell<%s>", "Cow": "Cow<'static, %s>",
-                "Rc": "Rc<%s>", "Arc": "Arc<%s>", "Mutex": "Mutex<%s>", "RwLock": "RwLock<%s>"}[t["g"]] % inner
+                "Rc": "Rc<%s>", "Arc": "Arc<%s>", "Mutex": "Mutex<%s>", "RwLock": "RwLock<%s>",
+                "RcWeak": "std::rc::Weak<%s>", "ArcWeak": "std::sync::Weak<%s>", "RefMut": "&'static mut %s", "Ref": "&'static %s",
+                "RefRefCell": "&'static RefCell<%s>", "RefMutex": "&'static Mutex<%s>", "RefRwLock": "&'static RwLock<%s>"}[t["g"]] % inner
     if k == "arr":
         return "[%s; %d]" % (rust_type(t["t"]), t["n"])
     if k == "tuple":
@@ -399,7 +420,9 @@ def value(rng, t):
         r = rng.random()
         if g == "Option" and r < 0.3:
             return ("gate", 1, None)
-        if g in ("RefCell", "Rc", "Arc", "Mutex", "RwLock") and r < 0.3:
+        if g in WEAK and r < 0.4:
+            return ("gate", 1, None)          # dead: the last strong reference is gone
+        if g in ("RefCell", "Rc", "Arc", "Mutex", "RwLock", "RefRefCell", "RefMutex", "RefRwLock") and r < 0.3:
             st = 2
         if g == "Cow" and r < 0.5:
             return ("gate", 0, value(rng, t["t"]), "borrowed")
@@ -463,6 +486,12 @@ def rust_build(t, val):
         g, st = t["g"], val[1]
         if g == "Option":
             return "None" if st == 1 else "Some(%s)" % rust_build(t["t"], val[2])
+        if g in WEAK:
+            strong, wity = WEAK[g][1], rust_type(t["t"])
+            if st == 1:       # dead: built from a strong reference that is dropped at once
+                dummy = rust_build(t["t"], value(random.Random(7), t["t"]))
+                return "{ let r: %s<%s> = %s::new(%s); %s::downgrade(&r) }" % (strong, wity, strong, dummy, strong)
+            return "{ let r: %s<%s> = %s::new(%s); let w = %s::downgrade(&r); keep.push(Box::new(r)); w }" % (strong, wity, strong, rust_build(t["t"], val[2]), strong)
         inner = rust_build(t["t"], val[2])
         if g == "Box":
             return "Box::new(%s)" % inner
@@ -473,6 +502,16 @@ def rust_build(t, val):
                 return "Cow::Borrowed(Box::leak(Box::new(%s)))" % inner
             return "Cow::Owned(%s)" % inner
         ity = rust_type(t["t"])      # explicit types: method calls on the fresh wrapper need them (Cow inside Rc)
+        if g == "RefMut":
+            return "{ let r: &'static mut %s = Box::leak(Box::new(%s)); r }" % (ity, inner)
+        if g == "Ref":
+            return "{ let r: &'static %s = Box::leak(Box::new(%s)); r }" % (ity, inner)
+        if g == "RefRefCell":
+            return "{ let c: &'static RefCell<%s> = Box::leak(Box::new(RefCell::new(%s))); %sc }" % (ity, inner, "std::mem::forget(c.borrow_mut()); " if st == 2 else "")
+        if g in ("RefMutex", "RefRwLock"):
+            cell, lock = ("Mutex", "lock") if g == "RefMutex" else ("RwLock", "write")
+            return ("{ let m: &'static %s<%s> = Box::leak(Box::new(%s::new(%s))); %sm }" % (cell, ity, cell, inner, (
+                "let _ = std::panic::catch_unwind(std::panic::AssertUnwindSafe(|| { let _g = m.%s().unwrap(); panic!(\"poison\") })); " % lock) if st == 2 else ""))
         if g == "RefCell":
             return "{ let c: RefCell<%s> = RefCell::new(%s); %sc }" % (ity, inner, "std::mem::forget(c.borrow_mut()); " if st == 2 else "")
         if g in ("Rc", "Arc"):
